@@ -106,8 +106,10 @@ func VerifSetCalcExponentialRetry(f func(d time.Duration, c uint32) time.Duratio
 }
 
 // VerifCalcExponentialRetry and VerifWaitDuration call the package's current implementations.
-func VerifCalcExponentialRetry(d time.Duration, c uint32) time.Duration { return calcExponentialRetry(d, c) }
-func VerifWaitDuration(ctx context.Context, d time.Duration)             { waitDuration(ctx, d) }
+func VerifCalcExponentialRetry(d time.Duration, c uint32) time.Duration {
+	return calcExponentialRetry(d, c)
+}
+func VerifWaitDuration(ctx context.Context, d time.Duration) { waitDuration(ctx, d) }
 
 // VerifCleanupLogic exposes the unexported clamp-and-shift logic of the cleaner for a freshly built buffer with the
 // given contents, relative consumer offsets and cleaner; it returns the resulting base offset and size.
